@@ -4,7 +4,7 @@ From Coq Require Import String.
 From Coq Require Import List Arith Bool ZArith QArith Qabs.
 From NV.Lib Require Import RingMat C08Base Harness.
 From NV.Generated Require Import AffineClasses.
-From NV.C08 Require Import Model.
+From NV.C08 Require Import Model ModelFold.
 Import ListNotations.
 Open Scope list_scope.
 Close Scope Q_scope.
@@ -95,3 +95,16 @@ Definition param_agrees (eps : Q) (cls : string) (pre p v0 v1 q : list Q) : bool
   end.
 (* preconditioner(radius) given rad = 1/radius *)
 Definition precond_agrees (rad : Q) (pre : list Q) : bool := qvec_close q0 (qprecond rad rad) pre.
+
+(* compose chains of any length (ModelFold): t1.compose(t2.compose(... z)), oracles outermost first *)
+Definition qcompose_right := compose_right Q q0 q1 qadd qmul qsub qopp qdiv qneg.
+Definition qseq_apply := seq_apply Q q0 q1 qadd qmul qopp.
+(* the composed transform maps the points as the implementation's composed object does *)
+Definition fold_pts_agree (eps : Q) (ts : list qxf) (z : qxf) (os : list qoracle) (pts out : list (list Q)) : bool :=
+  match qcompose_right ts z os with
+  | Some c => qmat_close eps (map (qapply c) pts) out
+  | None => false
+  end.
+(* applying the model's transforms one after the other gives what the implementation's composed object gives *)
+Definition seq_pts_agree (eps : Q) (ts : list qxf) (z : qxf) (pts out : list (list Q)) : bool :=
+  qmat_close eps (map (fun p => qseq_apply ts (qapply z p)) pts) out.
